@@ -204,6 +204,28 @@ def run(ctx):
                 b[ix] = {'bit0': b[ix] ^ 1, 'bit7': b[ix] ^ 0x80, 'zero': 0, 'ff': 0xFF}[kind]
                 robust(bytes(b), '%s at byte %d of a %s file' % (kind, ix, want))
         ctx.case(('faults', want), True)
+    # deep faults: LIS files with a DFSR and data records (the LIS detector builds a complete index), damaged at every byte
+    from . import c11
+    for k in range(ctx.pick(3, 12)):
+        data, _passes, meta = c11.build_lis(rng, ctx)
+        want = {'none': 'LIS', 'le': 'LISt'}[meta['tif']]
+        ctx.case(('own-logpass', k), True)
+        try:
+            got, pos = identify(data)
+            if got != want:
+                ctx.fail('a valid %s file with a log pass is identified as %r; %s' % (want, got, meta), dict(meta=meta, head=data[:256]),
+                         sig=dict(kind='own-type', fmt='LIS', got=got))
+        except Exception as e:
+            ctx.fail('binary_file_type raised %s: %s on a valid %s file %s' % (type(e).__name__, e, want, meta), dict(meta=meta, head=data[:64]),
+                     sig=dict(kind='own-raise', fmt='LIS'))
+        step = ctx.pick(2, 1)
+        for ix in range(0, len(data), step):
+            for kind in (('bit0', 'ff') if ctx.quick else ('bit0', 'bit7', 'zero', 'ff')):
+                b = bytearray(data)
+                b[ix] = {'bit0': b[ix] ^ 1, 'bit7': b[ix] ^ 0x80, 'zero': 0, 'ff': 0xFF}[kind]
+                robust(bytes(b), '%s at byte %d of a %s file with a log pass (%d bytes)' % (kind, ix, want, len(data)))
+        for c in range(0, len(data), ctx.pick(7, 1)):
+            robust(data[:c], 'truncation of a %s file with a log pass at byte %d' % (want, c))
     # structured prefixes and random strings
     ebc_printable = [b for b in range(256) if b in (0x40, 0x4b, 0x4c, 0x4d, 0x4e, 0x50, 0x5a, 0x5b, 0x5c, 0x5d, 0x5e, 0x60, 0x61, 0x6b, 0x6c, 0x6d, 0x6e, 0x6f,
                                                      0x7a, 0x7b, 0x7c, 0x7d, 0x7e, 0x7f) or 0x81 <= b <= 0x89 or 0x91 <= b <= 0x99 or 0xa2 <= b <= 0xa9
